@@ -749,6 +749,10 @@ mod c32 {
         #[serde(default)]
         pkt: Option<Pkt>,
         #[serde(default)]
+        rk: String,
+        #[serde(default)]
+        form: String,
+        #[serde(default)]
         masks: Vec<u8>,
         #[serde(default)]
         count: u64,
@@ -771,6 +775,12 @@ mod c32 {
         insp: BTreeMap<String, String>,
         fields_ok: bool,
         note: String,
+        /// from_relay_payload: requested key class and payload form ("bare" | "full"), "-" otherwise
+        rk: String,
+        form: String,
+        /// of the accepted value: carries the key it was requested for / built from; verifies (independent check)
+        val_key_ok: bool,
+        val_verifies: bool,
     }
 
     const CTORS: [&str; 4] = ["from_bytes", "from_relay_payload", "from_bytes_unchecked", "from_parts_unchecked"];
@@ -840,7 +850,8 @@ mod c32 {
             // payloads as the crate itself builds them
             let h1 = SignedPacket::from_txt_strings(&sk1, "_iroh", ["relay=https://one.example/", "addr=192.0.2.1:1"], 30).expect("p1");
             let h2 = SignedPacket::from_txt_strings(&sk1, "_iroh", ["relay=https://two.example/"], 30).expect("p2");
-            let h3 = SignedPacket::from_txt_strings(&sk2, "other", ["x"], 1).expect("px");
+            // px: a record at the apex of its zone (name "@"), owned by k2
+            let h3 = SignedPacket::from_txt_strings(&sk2, "@", ["x"], 1).expect("px");
             let junk = vec![0xde, 0xad, 0xbe, 0xef, 0x01];
             assert!(!parses(&junk), "junk sample parses");
             let long = vec![0u8; 1001];
@@ -987,13 +998,14 @@ mod c32 {
 
     fn observe(case: u64, ctor: &str, abs: &Pkt, b: &[u8], note: &str) -> Option<Obs> {
         let cls = Cls { len: len_class(b.len()).into(), point: is_point(b), verifies: verifies(b), parses: b.len() >= 104 && parses(&b[104..]) };
+        let (rk, form) = if ctor == "from_relay_payload" { (abs.key.clone(), "bare".to_string()) } else { ("-".to_string(), "-".to_string()) };
         let r = match vh::io::catch(|| construct(ctor, b)) {
             Ok(None) => return None,
             Ok(Some(r)) => r,
             Err(p) => {
                 let mut insp = BTreeMap::new();
                 insp.insert("constructor".to_string(), format!("panic: {p}"));
-                return Some(Obs { case, ctor: ctor.into(), abs: abs.clone(), cls, accepted: true, err: "panic".into(), insp, fields_ok: false, note: note.into() });
+                return Some(Obs { case, ctor: ctor.into(), abs: abs.clone(), cls, accepted: true, err: "panic".into(), insp, fields_ok: false, note: note.into(), rk, form, val_key_ok: false, val_verifies: false });
             }
         };
         let o = match r {
@@ -1001,11 +1013,37 @@ mod c32 {
                 // from_parts_unchecked of short parts pads nothing: compare against what it was given
                 let shown = p.as_bytes().to_vec();
                 let (insp, fields_ok) = inspect(&p, if ctor == "from_parts_unchecked" { &shown } else { b });
-                Obs { case, ctor: ctor.into(), abs: abs.clone(), cls, accepted: true, err: String::new(), insp, fields_ok, note: note.into() }
+                let val_key_ok = b.len() >= 32 && shown.len() >= 32 && shown[..32] == b[..32];
+                let val_verifies = verifies(&shown);
+                Obs { case, ctor: ctor.into(), abs: abs.clone(), cls, accepted: true, err: String::new(), insp, fields_ok, note: note.into(), rk, form, val_key_ok, val_verifies }
             }
-            Err(e) => Obs { case, ctor: ctor.into(), abs: abs.clone(), cls, accepted: false, err: e, insp: BTreeMap::new(), fields_ok: true, note: note.into() },
+            Err(e) => Obs { case, ctor: ctor.into(), abs: abs.clone(), cls, accepted: false, err: e, insp: BTreeMap::new(), fields_ok: true, note: note.into(), rk, form, val_key_ok: true, val_verifies: true },
         };
         Some(o)
+    }
+
+    /// from_relay_payload(key of class `rk`, payload = the *complete* packet `b`): OfferRelayFull in the model
+    fn observe_full(w: &World, case: u64, abs: &Pkt, rk: &str, b: &[u8], note: &str) -> Obs {
+        let cls = Cls { len: len_class(b.len()).into(), point: is_point(b), verifies: verifies(b), parses: b.len() >= 104 && parses(&b[104..]) };
+        let want = w.key(rk);
+        let key = PublicKey::try_from(&want[..]).expect("requested key is a point");
+        let (ctor, form) = ("from_relay_payload".to_string(), "full".to_string());
+        let note = format!("{note}; complete packet offered as relay payload for {rk}");
+        match vh::io::catch(|| SignedPacket::from_relay_payload(&key, b).map_err(|e| err_class(&e).to_string())) {
+            Err(p) => {
+                let mut insp = BTreeMap::new();
+                insp.insert("constructor".to_string(), format!("panic: {p}"));
+                Obs { case, ctor, abs: abs.clone(), cls, accepted: true, err: "panic".into(), insp, fields_ok: false, note, rk: rk.into(), form, val_key_ok: false, val_verifies: false }
+            }
+            Ok(Ok(p)) => {
+                let shown = p.as_bytes().to_vec();
+                let (insp, fields_ok) = inspect(&p, &shown);
+                let val_key_ok = shown.len() >= 32 && shown[..32] == want[..];
+                let val_verifies = verifies(&shown);
+                Obs { case, ctor, abs: abs.clone(), cls, accepted: true, err: String::new(), insp, fields_ok, note, rk: rk.into(), form, val_key_ok, val_verifies }
+            }
+            Ok(Err(e)) => Obs { case, ctor, abs: abs.clone(), cls, accepted: false, err: e, insp: BTreeMap::new(), fields_ok: true, note, rk: rk.into(), form, val_key_ok: true, val_verifies: true },
+        }
     }
 
     /// the model's classes of a concrete byte string derived from the honest packet `h` = (k1, t1, p1)
@@ -1078,7 +1116,9 @@ mod c32 {
                 "abstract" => {
                     let p = c.pkt.as_ref().expect("pkt");
                     let b = w.bytes(p);
-                    if let Some(o) = observe(c.id, &c.ctor, p, &b, "abstract") {
+                    if c.form == "full" {
+                        out.emit(&observe_full(&w, c.id, p, &c.rk, &b, "abstract"));
+                    } else if let Some(o) = observe(c.id, &c.ctor, p, &b, "abstract") {
                         out.emit(&o);
                     }
                 }
@@ -1093,6 +1133,9 @@ mod c32 {
                                 if let Some(o) = observe(c.id, ctor, &a, &b, &format!("byte {pos} ^ {mask:#04x}")) {
                                     out.emit(&o);
                                 }
+                            }
+                            for rk in ["k1", "k2"] {
+                                out.emit(&observe_full(&w, c.id, &a, rk, &b, &format!("byte {pos} ^ {mask:#04x}")));
                             }
                         }
                     }
@@ -1114,6 +1157,9 @@ mod c32 {
                                 out.emit(&o);
                             }
                         }
+                        for rk in ["k1", "k2"] {
+                            out.emit(&observe_full(&w, c.id, &a, rk, &b, &format!("bytes {i},{j}")));
+                        }
                     }
                 }
                 // every truncation and some extensions of the honest packet
@@ -1126,6 +1172,9 @@ mod c32 {
                                 out.emit(&o);
                             }
                         }
+                        for rk in ["k1", "k2"] {
+                            out.emit(&observe_full(&w, c.id, &a, rk, &b, &format!("truncated to {n}")));
+                        }
                     }
                     for extra in [1usize, 2, 12, 1104 - h.len(), 1105 - h.len(), 2000] {
                         let mut b = h.clone();
@@ -1135,6 +1184,9 @@ mod c32 {
                             if let Some(o) = observe(c.id, ctor, &a, &b, &format!("extended by {extra}")) {
                                 out.emit(&o);
                             }
+                        }
+                        for rk in ["k1", "k2"] {
+                            out.emit(&observe_full(&w, c.id, &a, rk, &b, &format!("extended by {extra}")));
                         }
                     }
                 }
@@ -1149,7 +1201,7 @@ mod c32 {
                             Err(p) => {
                                 let mut insp = BTreeMap::new();
                                 insp.insert("from_txt_strings".to_string(), format!("panic: {p}"));
-                                out.emit(&Obs { case: c.id, ctor: "from_txt_strings".into(), abs: hp.clone(), cls: Cls { len: "ok".into(), point: true, verifies: true, parses: true }, accepted: true, err: "panic".into(), insp, fields_ok: false, note });
+                                out.emit(&Obs { case: c.id, ctor: "from_txt_strings".into(), abs: hp.clone(), cls: Cls { len: "ok".into(), point: true, verifies: true, parses: true }, accepted: true, err: "panic".into(), insp, fields_ok: false, note, rk: "-".into(), form: "-".into(), val_key_ok: false, val_verifies: false });
                             }
                             Ok(Err(_)) => {} // too large / not encodable: no packet
                             Ok(Ok(p)) => {
@@ -1163,6 +1215,9 @@ mod c32 {
                                         }
                                         out.emit(&o);
                                     }
+                                }
+                                for rk in ["k1", "k2"] {
+                                    out.emit(&observe_full(&w, c.id, &hp, rk, &b, &note));
                                 }
                             }
                         }
